@@ -175,6 +175,30 @@ Proof.
   eapply written_here'; eauto.
 Qed.
 
+(* the same with the new items exposed, for any value whose formalisation is known *)
+Lemma lprim_append_gen : forall z rv st' p v,
+  rv_ok rv -> is_missing_rv rv = false -> (forall v', rv <> RIns v') -> n <= z ->
+  (forall nw st1, formalize q sc st (fst ps) KList tid fl (snd ps ++ [KI n]) false rv = (nw, st1) ->
+                  erase nw = v /\ is_missing nw = false /\ roots st1 = roots st) ->
+  lprim q sc st ps (KI z) rv = (st', p) ->
+  p = PUpd /\ exists nw, at_is st' ps tid KList pa fl (its ++ [(KI n, nw)]) /\ erase nw = v /\ is_missing nw = false /\
+              keeps_other (fst ps) st st' /\ anc_clean st' ps /\ wfs st'.
+Proof.
+  intros z rv st' p v OK NM NI RG FZ E.
+  pose proof (lprim_wfs _ _ _ _ _ _ _ _ WFS OK E) as W'.
+  unfold lprim in E. unfold at_is in AT. rewrite AT in E. fold n in E.
+  replace (z >=? n) with true in E by lia. rewrite NM in E. cbn [andb fst snd] in E.
+  assert (NI' : match rv with RIns v' => (true, v') | _ => (false, rv) end = (false, rv)).
+  { destruct rv; auto. exfalso. eapply NI; eauto. }
+  rewrite NI' in E.
+  assert (NN : 0 <= n) by (unfold n, zlen; lia).
+  replace (n <? 0) with false in E by lia. replace (n <? n) with false in E by lia. cbn [andb] in E.
+  destruct (formalize q sc st (fst ps) KList tid fl (snd ps ++ [KI n]) false rv) as [nw st1] eqn:F.
+  destruct (FZ _ _ eq_refl) as (EN & MN & RS).
+  inv E. split; auto. exists nw.
+  destruct (written_here' st ps tid pa fl its KList AT ANC st1 (its ++ [(KI n, nw)]) RS) as (A1 & K1 & AC1). auto 10.
+Qed.
+
 (* an insertion marker inserts: list.insert with its clamping *)
 Lemma lprim_insert : forall z rv st' p,
   storable_rv rv -> lprim q sc st ps (KI z) (RIns rv) = (st', p) ->
